@@ -34,3 +34,8 @@ func VerifHandle(pattern string, h func(*Request, *Response)) {
 
 // VerifResetMux forgets all registered handlers.
 func VerifResetMux() { defaultMux.m = nil }
+
+// VerifRequestFields returns what a handler (or the client, which parses responses with the request parser) sees.
+func VerifRequestFields(r *Request) (method, uri, version string, headers map[string]string, body string) {
+	return r.method_raw, r.uri, r.version_raw, r.headers.ptr, r.body
+}
